@@ -37,7 +37,8 @@ CLAIMED = {
               'UNPADDED-ORDER: the index unpadded size = counter - snapshot + check and the snapshot precedes every sink write of '
               'the block; FLAG-MODEL: first chunk / every chunk after a pending reset carries the dictionary reset, no '
               'control byte outside the reader-accepted classes; SPEC-CONST: format constants equal the published specs (26 rows); '
-              'TABLE-INVERSE; WINDOW-ALIGN: every decoder window size is provably a multiple of 16 (bit-level zero analysis '
+              'TABLE-INVERSE; INDEX-SIZE-TWIN: the footer\'s backward size counts exactly the integers the index writer encodes; '
+              'WINDOW-ALIGN: every decoder window size is provably a multiple of 16 (bit-level zero analysis '
               'through the rounding helpers), as liblzma\'s is.',
               'acceptance by the reference implementation of everything else (needs the reference); SPEC-CONST compares the '
               'format constants (magics, filter/check ids and sizes, LZMA2 limits, props formula) with the published specs.'),
@@ -85,7 +86,7 @@ CLAIMED = {
               'returned by every later call), EOF-MEANS-END (source EOF without the terminator is an error), ERR-SWALLOW-MT, '
               'SINK-ERR-STICKY (a failed sink write of a dequeued unit moves the writer to its error state), PANIC-WAKE (a worker '
               'that unwinds while holding a unit posts to the result channel through a drop guard), WRITE-LOOP-PROGRESS (a write-loop '
-              'iteration that copies nothing still reaches the dispatch call).',
+              'iteration that copies nothing still reaches the dispatch call; the room left in the unit is measured inside the loop).',
               'progress of back-pressure loops, value relations between sequence counters.'),
     'C10': _c('static: lock-set analysis, condvar predicate discipline, call-graph effects',
               'CV-LOCK, CV-NOTIFY (every predicate write is followed by a notify on all paths), LOCK-SCOPE, DROP-CLOSE, SPAWN-BOUND '
@@ -115,7 +116,9 @@ CLAIMED = {
               'invariants.'),
     'C16': _c('static: who-reads-how classification of every source access in the single-stream decoders',
               'EXACT-READ (only read_exact of fixed/sliced lengths, 1-byte reads or pass-through), MULTISTREAM-GUARD, END-NO-PULL '
-              '(typestate: after the end flag is set no call that can pull from the source is reachable in that call).',
+              '(typestate: after the end flag is set no call that can pull from the source is reachable in that call), END-FLAG-SET '
+              '(after index and footer every Ok return that is not "further stream found" sets the end flag), NO-READAHEAD (no '
+              'BufReader anywhere between a reader of the crate and the caller\'s source).',
               'whether the range decoder\'s lazy normalisation pulls exactly as many bytes as the encoder flushed.'),
     'C17': _c('static: unit inference {bytes, KiB} + dominance + interval analysis',
               'KIB-UNITS over the estimator call tree, LIMIT-BEFORE-ALLOC (limit test dominates every allocating call and is computed '
